@@ -808,3 +808,187 @@ theorem toSocklen_eq (n : Nat) (h : n < 2 ^ 32) : toSocklen n = Int.ofNat n := b
   simp [toSocklen, Nat.mod_eq_of_lt h]
 
 end PV.Socket
+
+namespace PV.Socket
+open PV.Generated.Socket
+
+/-! ## properties of every native call a computation makes -/
+
+/-- every trace entry of `m`, on every script, satisfies `P` -/
+def TrAll {α} (P : Ev → Prop) (m : M α) : Prop :=
+  ∀ st, match m st with
+    | .ok _ _ evs => ∀ ev ∈ evs, P ev
+    | .stop _ => True
+
+theorem TrAll.pure {α} {P : Ev → Prop} (a : α) : TrAll P (pure a : M α) := by
+  intro st; simp [Pure.pure, M.pure]
+
+theorem TrAll.bind {α β} {P : Ev → Prop} {m : M α} {k : α → M β} (hm : TrAll P m) (hk : ∀ a, TrAll P (k a)) :
+    TrAll P (m >>= k) := by
+  intro st
+  have h1 := hm st
+  show match M.bind m k st with | .ok _ _ evs => ∀ ev ∈ evs, P ev | .stop _ => True
+  unfold M.bind
+  cases hms : m st with
+  | stop w => simp
+  | ok a st' evs =>
+    simp only [hms] at h1
+    have h2 := hk a st'
+    simp only []
+    cases hks : k a st' with
+    | stop w => simp
+    | ok b st'' evs' =>
+      simp only [hks] at h2
+      simp only [List.mem_append]
+      intro ev hev
+      rcases hev with h | h
+      · exact h1 ev h
+      · exact h2 ev h
+
+theorem TrAll.sys {P : Ev → Prop} (c : Issued) (h : ∀ r, P ⟨c, r⟩) : TrAll P (sys c) := by
+  intro st
+  unfold PV.Socket.sys
+  cases st.script with
+  | nil => simp
+  | cons r s => by_cases hs : r.sys = c.sys <;> simp [hs, h]
+
+theorem TrAll.liftLoop {P : Ev → Prop} (l : List Res → Int → LoopR) (h : ∀ s e, ∀ ev ∈ (l s e).evs, P ev) :
+    TrAll P (liftLoop l) := by
+  intro st
+  unfold PV.Socket.liftLoop
+  cases hf : (l st.script st.errno).fin <;> simp only [hf] <;> first | trivial | exact h _ _
+
+theorem TrAll.getErrno {P : Ev → Prop} : TrAll P getErrno := by intro st; simp [PV.Socket.getErrno]
+theorem TrAll.errnoErr {P : Ev → Prop} (msg : String) (b : Bool) : TrAll P (errnoErr msg b) := by
+  intro st; simp [PV.Socket.errnoErr]
+theorem TrAll.stopWith {α} {P : Ev → Prop} (w : Stop) : TrAll P (stopWith w : M α) := by
+  intro st; simp [PV.Socket.stopWith]
+
+theorem TrAll.of_call {P : Ev → Prop} (s : Sock) (c : Call) (h : TrAll P (callM s c)) (script : Script) (e : Int)
+    (r : CallResult) (hr : call s c script e = .ok r) : ∀ ev ∈ r.tr, P ev := by
+  have := h { script := script, errno := e }
+  unfold call at hr
+  cases hm : callM s c { script := script, errno := e } with
+  | stop w => simp [hm] at hr
+  | ok a st evs =>
+    simp only [hm] at this hr
+    obtain ⟨s', o⟩ := a
+    injection hr with hr; subst hr
+    exact this
+
+attribute [irreducible] TrAll
+
+theorem pollLoop_calls (call : Issued) : ∀ (s : List Res) (e : Int), ∀ ev ∈ (pollLoop call s e).evs, ev.call = call := by
+  intro s
+  induction s with
+  | nil => intro e ev h; simp [pollLoop] at h
+  | cons r s ih =>
+    intro e ev h
+    rw [pollLoop_cons] at h
+    split at h
+    · simp at h
+    · cases hp : pollStep r e with
+      | again e' =>
+        simp only [hp, LoopR.cons, List.mem_cons] at h
+        rcases h with h | h
+        · simp [h]
+        · exact ih _ _ h
+      | ready => simp [hp] at h; simp [h]
+      | fail pe e' => simp [hp] at h; simp [h]
+
+theorem connLoop_cons (call : Issued) (r : Res) (s : List Res) (e : Int) :
+    connLoop call (r :: s) e =
+      if r.sys ≠ .connect then ⟨.stop (.mismatch .connect r.sys), [], r :: s, e⟩
+      else if r.ret = .ok 0 then ⟨.done r, [⟨call, r⟩], s, (match r.ret with | .err x => x | .ok _ => e)⟩
+      else if (match r.ret with | .err x => x | .ok _ => e) = EINTR then
+        (connLoop call s (match r.ret with | .err x => x | .ok _ => e)).cons ⟨call, r⟩
+      else ⟨.done r, [⟨call, r⟩], s, (match r.ret with | .err x => x | .ok _ => e)⟩ := by
+  conv => lhs; unfold connLoop
+  split <;> rfl
+
+theorem connLoop_calls (call : Issued) : ∀ (s : List Res) (e : Int), ∀ ev ∈ (connLoop call s e).evs, ev.call = call := by
+  intro s
+  induction s with
+  | nil => intro e ev h; simp [connLoop] at h
+  | cons r s ih =>
+    intro e ev h
+    rw [connLoop_cons] at h
+    by_cases h1 : r.sys ≠ .connect
+    · simp [h1] at h
+    · simp only [h1, if_false] at h
+      by_cases h2 : r.ret = .ok 0
+      · simp only [h2, if_true] at h; simp at h; simp [h]
+      · simp only [h2, if_false] at h
+        generalize (match r.ret with | .err x => x | .ok _ => e) = e2 at h
+        by_cases h3 : e2 = EINTR
+        · simp only [h3, if_true, LoopR.cons, List.mem_cons] at h
+          rcases h with h | h
+          · simp [h]
+          · exact ih _ _ h
+        · simp only [h3, if_false] at h; simp at h; simp [h]
+
+end PV.Socket
+
+namespace PV.Socket
+
+/-- decompose a `TrAll` goal along the structure of a `do` block; `t` proves the property for one native call -/
+macro "tr_all" "(" t:tactic ")" : tactic => `(tactic|
+  repeat' (first
+    | with_reducible apply TrAll.bind
+    | with_reducible apply TrAll.pure
+    | with_reducible apply TrAll.errnoErr
+    | with_reducible apply TrAll.getErrno
+    | with_reducible apply TrAll.stopWith
+    | (with_reducible apply TrAll.sys; intro _; $t; done)
+    | split
+    | intro _
+    | dsimp only))
+
+end PV.Socket
+
+namespace PV.Socket
+open PV.Generated.Socket
+
+theorem pollLoop_timeout_from_poll0 (call : Issued) : ∀ (s : List Res) (e : Int) (pe : PErr),
+    (pollLoop call s e).fin = .fail pe → pe.msg = msgTimedOut →
+      ∃ r, (pollLoop call s e).evs.getLast? = some ⟨call, r⟩ ∧ r.ret = .ok 0 := by
+  intro s
+  induction s with
+  | nil => intro e pe h; simp [pollLoop] at h
+  | cons r s ih =>
+    intro e pe h hm
+    rw [pollLoop_cons] at h ⊢
+    split at h
+    · cases h
+    · rename_i hsys
+      simp only [hsys, if_false]
+      cases hp : pollStep r e with
+      | again e' =>
+        simp only [hp] at h ⊢
+        obtain ⟨r', h1, h2⟩ := ih e' pe (by simpa [LoopR.cons] using h) hm
+        refine ⟨r', ?_, h2⟩
+        simp only [LoopR.cons]
+        cases hl : (pollLoop call s e').evs with
+        | nil => simp [hl] at h1
+        | cons a l => rw [hl] at h1; simpa [List.getLast?_cons_cons] using h1
+      | ready => simp [hp] at h
+      | fail pe' e' =>
+        simp only [hp] at h ⊢
+        injection h with h; subst h
+        refine ⟨r, by simp, ?_⟩
+        unfold pollStep at hp
+        cases hr : r.ret with
+        | ok v =>
+          simp only [hr] at hp
+          split at hp
+          · cases hp
+          · split at hp
+            · rename_i h0; simp [h0]
+            · injection hp with hp1 hp2; subst hp1; simp [msgPollFailed, msgTimedOut] at hm
+        | err x =>
+          simp only [hr] at hp
+          split at hp
+          · cases hp
+          · injection hp with hp1 hp2; subst hp1; simp [msgPollFailed, msgTimedOut] at hm
+
+end PV.Socket
